@@ -437,11 +437,11 @@ pub fn run(e: &Engine) {
     e.assume("the in-memory object store is linearizable per request (what the Service trait documents); list pages are produced lazily in key order from the state at the time each page is requested");
     e.assume("cleanup draws are pinned off here (C10 owns cleanup)");
     let rule = "2-4 clients, each a script of 1-4 calls (add-version on its current or a stale view, get-child of any id seen, add-snapshot for an own accepted version, walk from the root, get-snapshot) over a pre-existing chain of 0-3 versions, list page size 1-3, and a generated schedule at the granularity of single get/put/del/list-page/compare-and-swap requests; history invariants vs. the final quiescent walk; non-trivial = a compare-and-swap of 'latest' was lost, or a get-child's listing fell between another client's put and swap of the same parent";
-    e.campaign("schedules", rule, e.tier.pick(12_000, 1_000_000), strategy, render, check_case);
+    e.campaign("schedules", rule, e.tier.pick(400_000, 10_000_000), strategy, render, check_case);
     e.enumerate(
         "two-clients-exhaustive",
-        "ALL binary schedules (length 11; thorough 14) of two clients with the scripts {add | add}, {add | get-child, add}, {add, get-child | add, walk}, on initial chains of length 0 and 1, page sizes 1 and 3; non-trivial as above",
-        exhaustive_cases(e.tier.pick(11, 14)),
+        "ALL binary schedules (length 13; thorough 16) of two clients with the scripts {add | add}, {add | get-child, add}, {add, get-child | add, walk}, on initial chains of length 0 and 1, page sizes 1 and 3; non-trivial as above",
+        exhaustive_cases(e.tier.pick(13, 16)),
         render,
         check_case,
     );
